@@ -117,6 +117,10 @@ type gen struct {
 	guards []guardSpec
 	localRefs map[int]bool
 	privCells []privCell
+	// iterTerm: number of completed iterations of the innermost loop being cut (iter__ in contracts)
+	iterTerm *Term
+	// refs allocated while a loop body is executed for discovery (nil outside)
+	dryAllocs map[int]bool
 	globalsSeen map[int]bool
 	boxed map[int]*Val
 	loopEntryVals map[string]*Val
@@ -379,8 +383,42 @@ func (g *gen) load(st *State, p *Val, t types.Type) *Val {
 
 func (g *gen) recordWrite(k LeafKey, s Sort) {
 	if g.written != nil {
-		g.written[k] = leafMeta{sort: s, keySort: SInt}
+		g.written[k] = leafMeta{sort: s, keySort: SInt, old: true}
 	}
+}
+
+// recordStore: a store instruction of the loop body under discovery. If its
+// target is (syntactically) an object the body itself allocated during this
+// discovery pass, the write cannot touch an object that existed before the loop.
+func (g *gen) recordStore(k LeafKey, s Sort, target *Term) {
+	if g.written == nil {
+		return
+	}
+	m, seen := g.written[k]
+	fresh := g.dryAllocs != nil && g.dryAllocs[target.id]
+	if !seen {
+		m = leafMeta{sort: s, keySort: SInt}
+	}
+	if !fresh {
+		if g.isPrivRef(target) && !k.Elem {
+			if m.cells == nil {
+				m.cells = map[int]*Term{}
+			}
+			m.cells[target.id] = target
+		} else {
+			m.old = true
+		}
+	}
+	g.written[k] = m
+}
+
+func (g *gen) isPrivRef(t *Term) bool {
+	for _, c := range g.privCells {
+		if c.ref.id == t.id {
+			return true
+		}
+	}
+	return false
 }
 
 func (g *gen) store(st *State, p *Val, t types.Type, v *Val) {
@@ -420,7 +458,7 @@ func (g *gen) store(st *State, p *Val, t types.Type, v *Val) {
 			continue
 		}
 		k := g.leafKeyL(p.Addr, l)
-		g.recordWrite(k, l.Sort())
+		g.recordStore(k, l.Sort(), p.L[0])
 		g.checkStoreGuards(st, k, g.localRefs[p.L[0].id], v.L[i])
 		hv := st.heap.Get(k, l.Sort(), SInt)
 		var idx *Term
@@ -576,6 +614,9 @@ func isPrivateCell(x *ssa.Alloc) bool {
 func (g *gen) alloc(st *State, hint string) *Term {
 	r := Fresh(hint, SInt)
 	g.localRefs[r.id] = true
+	if g.dryAllocs != nil {
+		g.dryAllocs[r.id] = true
+	}
 	g.assumeGlobal(Lt(st.wm, r))
 	g.assumeGlobal(Lt(Int(0), r))
 	st.wm = r
@@ -1199,6 +1240,8 @@ func (g *gen) cutLoop(li *loopInfo, spec *LoopSpec) {
 	savedW, savedAll := g.written, g.wroteAll
 	g.written, g.wroteAll = map[LeafKey]leafMeta{}, false
 	savedDefers := g.defers
+	savedDry := g.dryAllocs
+	g.dryAllocs = map[int]bool{}
 	{
 		ds := &State{reach: True, wm: Fresh("wm", SInt)}
 		ds.heap = NewEpochHeap("disc", ds.wm)
@@ -1216,9 +1259,27 @@ func (g *gen) cutLoop(li *loopInfo, spec *LoopSpec) {
 	w, wAll := g.written, g.wroteAll
 	g.written, g.wroteAll = savedW, savedAll
 	g.defers = savedDefers
+	if savedDry != nil {
+		// what the inner loop allocated was allocated inside the outer body too
+		for id := range g.dryAllocs {
+			savedDry[id] = true
+		}
+	}
+	g.dryAllocs = savedDry
 	g.dry--
 	if g.written != nil {
 		for k, m := range w {
+			if pm, ok := g.written[k]; ok {
+				if pm.old {
+					m.old = true
+				}
+				for id, c := range pm.cells {
+					if m.cells == nil {
+						m.cells = map[int]*Term{}
+					}
+					m.cells[id] = c
+				}
+			}
 			g.written[k] = m
 		}
 		if wAll {
@@ -1241,6 +1302,9 @@ func (g *gen) cutLoop(li *loopInfo, spec *LoopSpec) {
 		}
 	}
 	levSave := g.loopEntryVals
+	iterSave := g.iterTerm
+	defer func() { g.iterTerm = iterSave }()
+	g.iterTerm = Int(0)
 	if spec != nil {
 		env := g.specEnv(st0, g.entry)
 		g.bindLoopVars(env, li, phis)
@@ -1253,7 +1317,7 @@ func (g *gen) cutLoop(li *loopInfo, spec *LoopSpec) {
 	// ---- havoc
 	if os.Getenv("HVC_DEBUG_LOOPS") != "" {
 		for k := range w {
-			fmt.Fprintf(os.Stderr, "loop %s writes %s\n", g.fname, k.String())
+			fmt.Fprintf(os.Stderr, "loop %s writes %s old=%v\n", g.fname, k.String(), w[k].old)
 		}
 		fmt.Fprintf(os.Stderr, "loop %s wroteAll=%v\n", g.fname, wAll)
 	}
@@ -1299,6 +1363,21 @@ func (g *gen) cutLoop(li *loopInfo, spec *LoopSpec) {
 			old := st0.heap.Get(k, m.sort, m.keySort)
 			nb := baseHV(FreshFunName("H.loop."+sanitize(k.String())), old.sort, old.hasKey, old.keySort)
 			setFacts(nb, k, nwl)
+			if !m.old {
+				// only objects allocated by the body were written: the objects
+				// that existed when the loop was entered keep this leaf
+				fb := nb
+				nb = hvBelowOf(st0.wm, old, fb)
+				ids := make([]int, 0, len(m.cells))
+				for id := range m.cells {
+					ids = append(ids, id)
+				}
+				sort.Ints(ids)
+				for _, id := range ids {
+					// a private cell of this function the body stores to: unknown content
+					nb = nb.Store(m.cells[id], nil, fb.Read(m.cells[id], nil))
+				}
+			}
 			st.heap = st.heap.With(k, nb)
 		}
 	}
@@ -1321,6 +1400,9 @@ func (g *gen) cutLoop(li *loopInfo, spec *LoopSpec) {
 	var env *SpecEnv
 	g.varAt = entryVars
 	g.loopEntryVals = levSave
+	iterK := Fresh("loop.iter", SInt)
+	g.assumeGlobal(Le(Int(0), iterK))
+	g.iterTerm = iterK
 	if spec != nil {
 		env = g.specEnv(st, g.entry)
 		g.bindLoopVars(env, li, phis)
@@ -1354,6 +1436,7 @@ func (g *gen) cutLoop(li *loopInfo, spec *LoopSpec) {
 			g.varAt = e.vars
 		}
 		g.loopEntryVals = levSave
+		g.iterTerm = Add(iterK, Int(1))
 		if spec != nil {
 			env2 := g.specEnv(e.st, g.entry)
 			g.bindLoopVars(env2, li, phis)
